@@ -27,10 +27,26 @@ def finite_refute(hyps, goal, axioms=(), sizes=(2, 3, 4), timeout_ms=10000, sort
         ctx = z3.Context()
         try:
             fs = z3.parse_smt2_string(txt, ctx=ctx)
-        except z3.Z3Exception:
+        except z3.Z3Exception as e:
+            import os
+            if os.environ.get("PYVC_DEBUG"):
+                print("finite_refute: parse error", str(e)[:500])
+                open("/tmp/finite_dbg.smt2", "w").write(txt)
             return None
         s2 = z3.Solver(ctx=ctx)
         s2.set("timeout", timeout_ms)
+        try:
+            srt = None
+            for f in fs:
+                srt = _find_sort(f, sort_name)
+                if srt is not None:
+                    break
+            if srt is not None:
+                consts = [srt.constructor(i)() for i in range(srt.num_constructors())]
+                cache = {}
+                fs = [expand(f, srt, consts, cache) for f in fs]
+        except z3.Z3Exception:
+            pass
         s2.add(fs)
         r = s2.check()
         if r == z3.sat:
@@ -48,3 +64,54 @@ def model_lines(m):
         except Exception:  # noqa
             pass
     return "\n".join(sorted(lines))
+
+
+def _find_sort(e, name):
+    seen, stack = set(), [e]
+    while stack:
+        x = stack.pop()
+        if x.get_id() in seen:
+            continue
+        seen.add(x.get_id())
+        if z3.is_quantifier(x):
+            for i in range(x.num_vars()):
+                if x.var_sort(i).name() == name:
+                    return x.var_sort(i)
+            stack.append(x.body())
+        else:
+            if x.sort().name() == name:
+                return x.sort()
+            stack.extend(x.children())
+    return None
+
+
+def expand(e, srt, consts, cache):
+    """expand quantifiers whose bound variables all range over the finite sort"""
+    import itertools
+    k = e.get_id()
+    if k in cache:
+        return cache[k][1]
+    if z3.is_quantifier(e) and not e.is_lambda():
+        n = e.num_vars()
+        if all(e.var_sort(i) == srt for i in range(n)):
+            body = e.body()
+            parts = []
+            for tup in itertools.product(consts, repeat=n):
+                inst = z3.substitute_vars(body, *reversed(tup))
+                parts.append(expand(inst, srt, consts, cache))
+            ctx = e.ctx
+            r = z3.And(*parts) if e.is_forall() else z3.Or(*parts)
+            if len(parts) == 1:
+                r = parts[0]
+        else:
+            r = e
+    elif z3.is_app(e) and e.num_args() > 0:
+        ch = [expand(c, srt, consts, cache) for c in e.children()]
+        if any(a.get_id() != b.get_id() for a, b in zip(ch, e.children())):
+            r = e.decl()(*ch)
+        else:
+            r = e
+    else:
+        r = e
+    cache[k] = (e, r)
+    return r
